@@ -265,7 +265,8 @@ Inductive cmd :=
 | AClone (src : path) (dstrel : path) (addidx : bool) (b : bspec)    (* subclass API CloneDataNodeSubtree *)
 | ARestore (src : path) (dstrel : path) (addidx : bool)              (* subclass API Save.. + RestoreNodeTreeFromMessage *)
 | ARemoveEntryAt (rel : path) (pos : nat)                            (* DataNode::RemoveIndexEntryAt on an own node *)
-| CDetach.                                                           (* the client closes its connection *)
+| CDetach                                                            (* the client closes its connection *)
+| CAttach.                                                           (* a new session is attached (id = number of sessions so far) *)
 
 Definition handle (cfg : config) (st : state) (s : nat) (c : cmd) : state :=
   match c with
@@ -289,14 +290,24 @@ Definition handle (cfg : config) (st : state) (s : nat) (c : cmd) : state :=
       if has_node (st_tree st) src then restore (S (length (st_tree st))) (st_tree st) st s src dstrel addidx else st
   | ARemoveEntryAt rel pos => prim_remove_entry_at st (NS s :: rel) pos
   | CDetach => remove_child_rec st [NS s]
+  | CAttach => st
   end.
 
 (* one command, then AfterMessageReceivedFromGateway -> PushSubscriptionMessages *)
+(* AttachedToServer: the session node appears under the host node *)
+Definition attach (st : state) : state :=
+  mkSt (S (st_n st)) (add_node (st_tree st) [NS (st_n st)]) (st_subs st) (st_ipres st) (st_refl st)
+       (st_pend st) (st_mirror st) (st_hist st) (st_out st).
+
 Definition exec (cfg : config) (s : nat) (st : state) (c : cmd) : state :=
-  if (s <? st_n st) && has_node (st_tree st) [NS s] then     (* an attached session *)
-    let st' := flush (handle cfg st s c) in
-    match c with CDetach => drop_session st' s | _ => st' end
-  else st.
+  match c with
+  | CAttach => attach st
+  | _ =>
+    if (s <? st_n st) && has_node (st_tree st) [NS s] then     (* an attached session *)
+      let st' := flush (handle cfg st s c) in
+      match c with CDetach => drop_session st' s | _ => st' end
+    else st
+  end.
 
 (* one step: session s's client sends one Message: a single command or a PR_COMMAND_BATCH (nested
    batches flatten: every leaf is followed by the push) *)
